@@ -292,10 +292,10 @@ def r13_5(ctx: Ctx) -> RuleResult:
     return rr
 
 
-def r13_6(ctx: Ctx) -> RuleResult:
+def r13_6(ctx: Ctx, rule: str = "R13.6") -> RuleResult:
     # floor: two twins + first operand + at least one construction for the further operands + nested root path
     # (the union and the intersection branch may share one construction)
-    rr = RuleResult("R13.6", "fake root wraps the document in both twins and is detected for every sub-path", floor=5)
+    rr = RuleResult(rule, "fake root wraps the document in both twins and is detected for every sub-path", floor=5)
     jp = ctx.repo.require_class("jsonpath.path.JSONPath")
     for name in ("finditer", "finditer_async"):
         fn = jp.methods.get(name)
@@ -339,7 +339,10 @@ def r13_6(ctx: Ctx) -> RuleResult:
                         expr = None
                 if (
                     isinstance(expr, ast.Compare) and len(expr.ops) == 1 and isinstance(expr.ops[0], (ast.Eq, ast.Is))
-                    and (path_of(expr.left) or "").endswith(".kind")
+                    and ((path_of(expr.left) or "").endswith(".kind") or (
+                        # the kind of the token as it is consumed: `stream.next_token().kind == TOKEN_FAKE_ROOT`
+                        isinstance(expr.left, ast.Attribute) and expr.left.attr == "kind" and isinstance(expr.left.value, ast.Call)
+                        and callee_name(expr.left.value) in ("next_token", "next") and qual.endswith("parse_root_path")))
                 ):
                     try:
                         v = ctx.folder.eval_in(expr.comparators[0], fn.module, fn.cls)
@@ -479,4 +482,37 @@ def r13_11(ctx: Ctx) -> RuleResult:
     return rr
 
 
-RULES = [r13_1, r13_2, r13_3, r13_4, r13_5, r13_6, r13_7, r13_8, r13_9, r13_10, r13_11]
+def r13_12(ctx: Ctx) -> RuleResult:
+    """Bare names in brackets: `[name]` is `['name']`.  `Parser.parse_selector_list` is executed abstractly on both
+    spellings (tokens from the lexer model) for names over every class of character the documented name syntax
+    admits - ASCII letters, digits, `_` and `-` after the first character, non-ASCII characters in and beyond the
+    Basic Multilingual Plane in any position; both must construct the same single name selector.  (Names that start
+    with `_`, the filter-context identifier, are the known finding of R1.12 and are not sampled here.)"""
+    from .model import RAISES
+    from .model import parse_bracketed
+
+    names = ["a", "Z9", "abc", "a_b", "x-y", "a1-", "\u00e9", "\u00e9t\u00e9", "a\u00e9", "\ud7ff\ue000", "\U0001f600", "a\U0001f600", "\U0001f600a", "a\U0010ffffz",
+             "b\uffff", "k-\U0001f600-9"]
+    rr = RuleResult("R13.12", "a bare name in brackets is the quoted name", floor=len(names) * 2)
+    fn = ctx.repo.require_func("Parser.parse_selector_list")
+    for name in names:
+        quoted = parse_bracketed(ctx, "R13.12", f"['{name}']")
+        if quoted is None or quoted is RAISES or len(quoted) != 1 or quoted[0][1].get("name") != name:  # type: ignore[arg-type,index,union-attr]
+            raise AnalysisError(f"R13.12: the quoted selection ['{name}'] is not parsed into one name selector ({quoted})")
+        for text in (f"[{name}]", f"[ {name} , {name}]"):
+            bare = parse_bracketed(ctx, "R13.12", text)
+            count = 1 if "," not in text else 2
+            if bare is None:
+                raise AnalysisError(f"R13.12: the abstract execution of parse_selector_list on {text} cannot be followed")
+            if bare is RAISES:
+                rr.bad(fn, fn.node, f"the selection {text} is refused although ['{name}'] is accepted: the bare spelling does not reach every name "
+                       "(the lexer cuts the name or reads part of it as another token)", construct=f"bare name {name!r} refused")
+            elif len(bare) == count and all(c == "PropertySelector" and k.get("name") == name for c, k in bare):  # type: ignore[union-attr]
+                rr.ok(fn.loc(), f"{text} is {count} x ['{name}']")
+            else:
+                rr.bad(fn, fn.node, f"the selection {text} is parsed into {bare} while ['{name}'] is the name {name!r}: a bare name means something "
+                       "else than its quoted form", construct=f"bare name {name!r} -> {[(c, k.get('name')) for c, k in bare]}")  # type: ignore[union-attr]
+    return rr
+
+
+RULES = [r13_1, r13_2, r13_3, r13_4, r13_5, r13_6, r13_7, r13_8, r13_9, r13_10, r13_11, r13_12]
